@@ -13,10 +13,48 @@ import threading
 import time
 
 VERIF = os.path.dirname(os.path.dirname(os.path.abspath(__file__)))
-HARNESS = os.path.join(VERIF, "harness")
-TARGET = os.path.join(VERIF, "target")
-WORK = os.path.join(VERIF, "work")
+# Overridable so that a developer can build a scratch copy of the harness without disturbing
+# concurrent runs (the registered checks never set these).
+HARNESS = os.environ.get("VERIF_HARNESS") or os.path.join(VERIF, "harness")
+TARGET = os.environ.get("VERIF_TARGET") or os.path.join(VERIF, "target")
+WORK = os.environ.get("VERIF_WORK") or os.path.join(VERIF, "work")
 NCPU = min(16, os.cpu_count() or 4)
+
+# Development aid (never set by the registered checks): VERIF_REPO=<scratch worktree of /repo>
+# builds the same harness against that tree instead of /repo, in its own target directory, so
+# that a seeded change can be tried without touching /repo.
+_ALT_REPO = os.environ.get("VERIF_REPO")
+if _ALT_REPO and os.path.abspath(_ALT_REPO) != "/repo":
+    import hashlib as _hl
+
+    _tag = _hl.sha1(os.path.abspath(_ALT_REPO).encode()).hexdigest()[:10]
+    _base = os.environ.get("VERIF_SCRATCH") or ("/tmp/verif_alt_" + _tag)
+    _alt_h = os.path.join(_base, "harness")
+    os.makedirs(_alt_h, exist_ok=True)
+    for _root, _dirs, _files in os.walk(HARNESS):
+        _dirs[:] = [d for d in _dirs if d != "target"]
+        _rel = os.path.relpath(_root, HARNESS)
+        os.makedirs(os.path.join(_alt_h, _rel), exist_ok=True)
+        for _f in _files:
+            _src = os.path.join(_root, _f)
+            _dst = os.path.join(_alt_h, _rel, _f)
+            with open(_src, "rb") as _fh:
+                _data = _fh.read()
+            if _f == "Cargo.toml":
+                _data = _data.replace(b'"/repo/', ('"' + os.path.abspath(_ALT_REPO) + "/").encode())
+            try:
+                with open(_dst, "rb") as _fh:
+                    if _fh.read() == _data:
+                        continue
+            except OSError:
+                pass
+            with open(_dst, "wb") as _fh:
+                _fh.write(_data)
+    HARNESS = _alt_h
+    if not os.environ.get("VERIF_TARGET"):
+        TARGET = os.path.join(_base, "target")
+    if not os.environ.get("VERIF_WORK"):
+        WORK = os.path.join(_base, "work")
 
 HOOK_CFG = "--cfg dmntk_verif"
 
